@@ -192,15 +192,18 @@ fn get_type_layout(module: &Module, ty: TypeId, mode: PackingMode) -> Option<Lay
             };
             for member in &def.members {
                 let member_layout = get_type_layout(module, member.type_id, mode)?;
-                layout.size = layout.size.next_multiple_of(member_layout.align);
+                // A type that does not fit into 32-bit sizes has no layout we can describe
+                layout.size = layout
+                    .size
+                    .checked_next_multiple_of(member_layout.align)?;
                 for offset in &member_layout.field_offsets {
-                    layout.field_offsets.push(layout.size + offset);
+                    layout.field_offsets.push(layout.size.checked_add(*offset)?);
                 }
-                layout.size += member_layout.size;
+                layout.size = layout.size.checked_add(member_layout.size)?;
                 layout.align = layout.align.max(member_layout.align);
             }
             // A struct used as a member or array element occupies a multiple of its alignment
-            layout.size = layout.size.next_multiple_of(layout.align);
+            layout.size = layout.size.checked_next_multiple_of(layout.align)?;
             Some(layout)
         }
         TypeLayer::StructTemplate(_) => panic!("unexpected struct template"),
@@ -211,7 +214,9 @@ fn get_type_layout(module: &Module, ty: TypeId, mode: PackingMode) -> Option<Lay
         TypeLayer::Object(_) => None,
         TypeLayer::Array(ty, Some(count)) => {
             let element = get_type_layout(module, ty, mode)?;
-            let count = u32::try_from(count).unwrap();
+            // An array that does not fit into 32-bit sizes has no layout we can describe
+            let count = u32::try_from(count).ok()?;
+            let size = element.size.checked_mul(count)?;
             // The first two elements are enough to capture the element layout and the stride
             let mut field_offsets = Vec::new();
             for i in 0..count.min(2) {
@@ -220,7 +225,7 @@ fn get_type_layout(module: &Module, ty: TypeId, mode: PackingMode) -> Option<Lay
                 }
             }
             Some(Layout {
-                size: element.size * count,
+                size,
                 align: element.align,
                 field_offsets,
             })
